@@ -136,3 +136,67 @@ def aave_world(S, tokens=("TKA", "TKB"), supplies=("TKA",), borrows=("TKB",), ta
     for n in borrows:
         market._borrows[toks[n]] = BorrowInfo(S.dec(f"{tag}borrow_{n}_base", 0, 10 ** 12, lo_strict=True), S.dec(f"{tag}borrow_{n}_begin_index", 1, 100))
     return World(broker=broker, market=market, tokens=toks, actions=actions, rp=rp)
+
+
+# ------------------------------------------------------------------------------------------------ Deribit options
+from demeter.deribit import DeribitOptionMarket, DeribitMarketStatus, OptionPosition, OptionKind
+
+H0 = pd.Timestamp("2024-01-01 06:00:00")       # on the hour: the option market is open
+H0_1 = pd.Timestamp("2024-01-01 06:01:00")     # off the hour: closed
+H1 = pd.Timestamp("2024-01-01 07:00:00")
+DERIBIT_COLS = ("state", "type", "strike_price", "expiry_time", "mark_price", "underlying_price", "delta", "gamma", "asks", "bids")
+
+
+@native
+def deribit_book(S, tag, mark, n_asks, n_bids):
+    """order book sorted best-first with bids <= mark <= asks (precondition stated in C03/C15), sizes >= 0; floats as in the data"""
+    asks, bids = [], []
+    prev = mark
+    for i in range(n_asks):
+        p = S.flt(f"{tag}ask{i}_price", prev, 10, lo_strict=(i > 0))
+        asks.append([p, S.flt(f"{tag}ask{i}_size", 0, 10 ** 6)])
+        prev = p
+    prev = mark
+    for i in range(n_bids):
+        p = S.flt(f"{tag}bid{i}_price", 0, prev, lo_strict=True, hi_strict=(i > 0))
+        bids.append([p, S.flt(f"{tag}bid{i}_size", 0, 10 ** 6)])
+        prev = p
+    return asks, bids
+
+
+@native
+def deribit_world(S, instruments=(("I0", "CALL", "open"),), n_asks=2, n_bids=2, held=("I0",), ts=H0, expiry=None, tag=""):
+    """Broker + DeribitOptionMarket at bar `ts`; which instruments exist / are held, their kinds, states, book depths and expiry
+    times are the (concrete) shape; every price, size, amount, strike, cash and wallet balance is symbolic."""
+    token = DeribitOptionMarket.ETH
+    actions = []
+    broker = Broker(record_action_callback=actions.append)
+    market = DeribitOptionMarket(MarketInfo("opt", MarketTypeEnum.deribit_option), token)
+    broker.add_market(market)
+    expiry = expiry or {}
+    rows = {}
+    for name, kind, state in instruments:
+        mark = S.flt(f"{tag}{name}_mark", 0, 5, lo_strict=True)
+        asks, bids = deribit_book(S, f"{tag}{name}_", mark, n_asks, n_bids)
+        rows[name] = {"state": state, "type": kind, "strike_price": S.int(f"{tag}{name}_strike", 1, 10 ** 6),
+                      "expiry_time": expiry.get(name, H1), "mark_price": mark,
+                      "underlying_price": S.flt(f"{tag}underlying", 1, 10 ** 6), "delta": S.flt(f"{tag}{name}_delta", -1, 1),
+                      "gamma": S.flt(f"{tag}{name}_gamma", 0, 1), "asks": asks, "bids": bids}
+    data = pd.DataFrame.from_dict(rows, orient="index", columns=list(DERIBIT_COLS)).astype(object)
+    # the input frame: (time, instrument) -> the same cells (so that a write into a shared cell is visible as a frame violation)
+    frame_rows = {(ts.floor("1h"), n): r for n, r in rows.items()}
+    market._data = pd.DataFrame.from_dict(frame_rows, orient="index", columns=list(DERIBIT_COLS)).astype(object)
+    market._data.index = pd.MultiIndex.from_tuples(list(frame_rows.keys()))
+    market._market_status = DeribitMarketStatus(ts, data)
+    market._price_status = pd.Series({token.name: S.dec(f"{tag}eth_price", 0, 10 ** 6, lo_strict=True)}, dtype=object)
+    market.is_open = ts == ts.floor("1h")
+    market.balance = S.dec(f"{tag}cash", 0, 10 ** 9)
+    broker._assets[token] = Asset(token, S.dec(f"{tag}wallet_eth", 0, 10 ** 9))
+    kinds = {n: k for n, k, _ in instruments}
+    for name in held:
+        market.positions[name] = OptionPosition(
+            instrument_name=name, expiry_time=expiry.get(name, H1), strike_price=rows[name]["strike_price"] if name in rows else S.int(f"{tag}{name}_strike", 1, 10 ** 6),
+            type=OptionKind(kinds.get(name, "CALL")), amount=S.dec(f"{tag}pos_{name}_amount", 0, 10 ** 6, lo_strict=True),
+            avg_buy_price=S.dec(f"{tag}pos_{name}_avg_buy", 0, 10), buy_amount=S.dec(f"{tag}pos_{name}_bought", 0, 10 ** 7),
+            avg_sell_price=S.dec(f"{tag}pos_{name}_avg_sell", 0, 10), sell_amount=S.dec(f"{tag}pos_{name}_sold", 0, 10 ** 7))
+    return World(broker=broker, market=market, token=token, actions=actions, rows=rows, data=data)
